@@ -138,9 +138,20 @@ func c19Run(c c19Case, o *hx.Obs) {
 	var text string
 	var werr error
 	if o.Guard("XML writer", func() {
-		if c.Writer == "doc" {
+		switch c.Writer {
+		case "doc":
 			text, werr = nodeutil.WriteXMLDoc(sel, c.Pretty)
-		} else {
+		case "wtr1-reused":
+			// one XMLWtr value serves two exports, its Out pointed at a new buffer for the second: the second document
+			// is the one examined
+			var first, second bytes.Buffer
+			w := nodeutil.NewXMLWtr(&first)
+			if werr = sel.InsertInto(w.Node()); werr == nil {
+				w.Out = &second
+				werr = node.NewBrowser(mm, dm.NewRS(root, dm.CloneTree(c.Data))).Root().InsertInto(w.Node())
+				text = second.String()
+			}
+		default:
 			text, werr = nodeutil.WriteXML(sel)
 		}
 	}) {
@@ -215,7 +226,7 @@ func c19Run(c c19Case, o *hx.Obs) {
 
 var c19XML = hx.Register(&hx.Check[c19Case]{
 	Name: "c19-xml-roundtrip",
-	Rule: "generated schema + data (all leaf types, text with markup characters, quotes, CDATA terminators, leading/trailing/inner whitespace, non-ASCII) x writer (WriteXMLDoc pretty/compact, WriteXML); output must be one well-formed document for encoding/xml, decode to the data, and read back through the library's reader to the same tree; a harness-written document with sibling elements interleaved (same-named elements keep their order) must read as the same tree; non-trivial = text needing escaping or with significant whitespace, or a list with >= 2 entries",
+	Rule: "generated schema + data (all leaf types, text with markup characters, quotes, CDATA terminators, leading/trailing/inner whitespace, non-ASCII) x writer (WriteXMLDoc pretty/compact, WriteXML, one XMLWtr value reused for a second document); output must be one well-formed document for encoding/xml, decode to the data, and read back through the library's reader to the same tree; a harness-written document with sibling elements interleaved (same-named elements keep their order) must read as the same tree; non-trivial = text needing escaping or with significant whitespace, or a list with >= 2 entries",
 	Gen: func(t *rapid.T) c19Case {
 		o := dm.DefaultGen()
 		o.Types = []string{"int8", "int32", "int64", "uint8", "uint64", "decimal64", "string", "string", "boolean", "enumeration", "bits", "identityref", "binary", "empty"}
@@ -223,7 +234,7 @@ var c19XML = hx.Register(&hx.Check[c19Case]{
 		data := dm.GenTree(t, m.Root(), dm.TreeOpts{MaxEntries: 3, PresentPct: 75, EasyKeys: true})
 		replaced := 0
 		data = xmlRepresentable(data, &replaced).(dm.Tree)
-		return c19Case{Module: m, Data: data, Writer: rapid.SampledFrom([]string{"doc", "doc", "wtr1"}).Draw(t, "writer"), Pretty: rapid.Bool().Draw(t, "pretty"),
+		return c19Case{Module: m, Data: data, Writer: rapid.SampledFrom([]string{"doc", "doc", "wtr1", "wtr1-reused"}).Draw(t, "writer"), Pretty: rapid.Bool().Draw(t, "pretty"),
 			Perm: rapid.SliceOfN(rapid.IntRange(0, 7), 0, 8).Draw(t, "perm")}
 	},
 	Run: c19Run,
